@@ -24,6 +24,7 @@ RULE += (' Also: dict elements that are unsized one-shot iterators / generators.
 RULE += (' Also: values ordered by < alone (no __eq__): ties neither smaller nor equal.')
 RULE += (' Also: tuple / list subclass instances as inputs; exact result types compared.')
 RULE += (' Also: awaitable and look-alike values as default / fill value / initial value (handed back or passed on as they are).')
+RULE += (" Also: after the call the caller's synchronous one-shot iterator still yields everything the aggregation did not take.")
 ASSUMPTIONS = ["builtins/functools/heapq of the running interpreter (3.12) are the reference, incl. compensated float sum"]
 EXHAUSTIVE = {"quick": False, "thorough": False}
 N_RANDOM = {"quick": 150000, "thorough": 8000000}
@@ -123,6 +124,21 @@ def run_case(case, stats: Counter):
         if sync.inputs_before == sync.inputs_after:
             viols.append({"key": classify(spec, case, sync, asy, "mutated"),
                           "msg": f"{head}: argument object changed by the call: {asy.inputs_before} -> {asy.inputs_after}"})
+    if flav in ("sync_gen", "sync_iter") and asy.sources and st == at:
+        # a one-shot synchronous iterator the caller keeps: whatever the aggregation did not take is still there
+        # (an aggregation that stops early - a short circuit, a failing comparison - does not close the caller's generator)
+        src_state = asy.srcs[0]
+        want_rest = [canon(x) for x in src_state.items[src_state.pos:]]
+        try:
+            got_rest = [canon(x) for x in asy.sources[0]]
+        except BaseException as exc:  # noqa: BLE001
+            got_rest = repr(exc)
+        stats["remaining_input_probed"] += 1
+        if want_rest:
+            stats["remaining_input_nonempty"] += 1
+        if got_rest != want_rest:
+            viols.append({"key": f"{tool}/rest-of-the-input-iterator-lost",
+                          "msg": f"{head}: after the call the caller's iterator gives {got_rest}, {len(want_rest)} unconsumed items were expected"})
     if "default" in spec["params"]:
         dflt = canon(asy.params["default"])
         hit_a = any(e[0] == "call" and dflt in e[2][1:] for e in asy.log)
@@ -138,7 +154,7 @@ def run_case(case, stats: Counter):
 
 def finish(stats, tier):
     for need in ("ties_min", "ties_max", "ties_sorted", "ties_nlargest", "ties_nsmallest", "stdlib_raised_sync_iter",
-                 "stdlib_raised_async_class", "empty_default_key", "default_cases"):
+                 "stdlib_raised_async_class", "empty_default_key", "default_cases", "remaining_input_nonempty"):
         if not stats.get(need):
             return f"deciding counter {need} is zero"
     return None
